@@ -11,35 +11,36 @@ Arguments ws_inv {M} _.
 Import ListNotations.
 
 (* ---- has_done_action ---- *)
+(* (the boolean after the model name selects the code version: true = current code, where
+   PatternRewriter.create_block sets has_done_action, commit 5d0c2dd; false = the code before it) *)
 
-(* A rewriter call other than create_block that changes the IR sets has_done_action. *)
-Theorem C11_flag_sound_partial : forall (M : Sem), FlagLaws M -> forall a c r,
-  is_cb a = false -> apply M a c r <> c -> sets_flag M a c r = true.
+(* A rewriter call that changes the IR sets has_done_action -- every method. *)
+Theorem C11_flag_sound : forall (M : Sem), FlagLaws M -> forall a c r,
+  apply M true a c r <> c -> sets_flag M true a c r = true.
 Proof. exact flag_sound. Qed.
-Print Assumptions C11_flag_sound_partial.
+Print Assumptions C11_flag_sound.
 
-Theorem C11_flag_sound_partial_model : forall a c r,
-  is_cb a = false -> apply cir_sem a c r <> c -> sets_flag cir_sem a c r = true.
+Theorem C11_flag_sound_model : forall a c r,
+  apply cir_sem true a c r <> c -> sets_flag cir_sem true a c r = true.
 Proof. exact (flag_sound cir_sem cir_flag_laws). Qed.
-Print Assumptions C11_flag_sound_partial_model.
+Print Assumptions C11_flag_sound_model.
 
-(* The full statement fails: create_block (inherited from Builder) inserts a block and leaves
-   has_done_action False. *)
-Theorem C11_flag_sound_refuted :
+(* recorded refutation of the pre-fix code (known_findings.d/C11.json: fixed 5d0c2dd): create_block
+   inherited from Builder inserted a block and left has_done_action False *)
+Theorem C11_flag_sound_old_refuted :
   exists a, resolve (build w_ir) w_r0 (TCreateBlock 100 (BPAfter 1) []) = Some a /\
-            dump (apply cir_sem a (build w_ir) w_r0) <> dump (build w_ir) /\
-            sets_flag cir_sem a (build w_ir) w_r0 = false.
-Proof. exact flag_sound_refuted. Qed.
-Print Assumptions C11_flag_sound_refuted.
+            dump (apply cir_sem false a (build w_ir) w_r0) <> dump (build w_ir) /\
+            sets_flag cir_sem false a (build w_ir) w_r0 = false.
+Proof. exact flag_sound_old_refuted. Qed.
+Print Assumptions C11_flag_sound_old_refuted.
 
 (* has_done_action is set whenever a match (single pattern or GreedyRewritePatternApplier with its
-   DCE short-circuit) mutated the IR -- for patterns that do not call create_block. *)
-Theorem C11_match_flag_sound_partial : forall (M : Sem), FlagLaws M -> forall recur m o c w,
-  matcher_nocb M m ->
-  fst (fst (fst (run_match M recur m o c w))) <> c ->
-  flag (snd (fst (fst (run_match M recur m o c w)))) = true.
+   DCE short-circuit) mutated the IR. *)
+Theorem C11_match_flag_sound : forall (M : Sem), FlagLaws M -> forall recur m o c w,
+  fst (fst (fst (run_match M true recur m o c w))) <> c ->
+  flag (snd (fst (fst (run_match M true recur m o c w)))) = true.
 Proof. exact match_flag_sound. Qed.
-Print Assumptions C11_match_flag_sound_partial.
+Print Assumptions C11_match_flag_sound.
 
 (* ---- listener events ---- *)
 
@@ -47,7 +48,7 @@ Print Assumptions C11_match_flag_sound_partial.
    by a modification event of the op, or by the insertion / removal event of an op whose walk() holds
    it -- for every call except inline_block with arg_values. *)
 Theorem C11_events_complete_partial : forall (M : Sem), EvLaws M -> forall a c r c1 r1 t o,
-  no_silent_rewrite a -> exec M a c r = (c1, r1, t) -> changed M c c1 o -> covered M t o.
+  no_silent_rewrite a -> exec M true a c r = (c1, r1, t) -> changed M c c1 o -> covered M t o.
 Proof. exact events_complete. Qed.
 Print Assumptions C11_events_complete_partial.
 
@@ -55,10 +56,10 @@ Print Assumptions C11_events_complete_partial.
    and calls no listener at all. *)
 Theorem C11_events_complete_refuted :
   exists a, resolve (build w_ir3) w_r1 (TInlineBlock 1 (IPBefore 1) [VRes 3 0]) = Some a /\
-            changed cir_sem (build w_ir3) (apply cir_sem a (build w_ir3) w_r1) 2 /\
+            changed cir_sem (build w_ir3) (apply cir_sem true a (build w_ir3) w_r1) 2 /\
             In 2 (alive cir_sem (build w_ir3)) /\
-            ~ covered cir_sem (snd (exec cir_sem a (build w_ir3) w_r1)) 2 /\
-            sets_flag cir_sem a (build w_ir3) w_r1 = true.
+            ~ covered cir_sem (snd (exec cir_sem true a (build w_ir3) w_r1)) 2 /\
+            sets_flag cir_sem true a (build w_ir3) w_r1 = true.
 Proof. exact events_complete_refuted. Qed.
 Print Assumptions C11_events_complete_refuted.
 
@@ -66,10 +67,11 @@ Print Assumptions C11_events_complete_refuted.
 
 (* For every pop policy, walk configuration and pattern set respecting the calls' preconditions,
    every operation a pattern is invoked on is alive (not erased) in the IR state of that moment. *)
-Theorem C11_no_stale : forall (M : Sem) (wf : C M -> Prop), LiveLaws M wf ->
+Theorem C11_no_stale : forall (M : Sem) (wf : C M -> Prop) (ip_ok : C M -> ipoint -> Prop),
+  LiveLaws M wf ip_ok ->
   forall n fuel cf m pick c s ret,
-  matcher_pre M wf m -> wf c ->
-  rewrite_region M n fuel cf m pick c = Some (s, ret) ->
+  matcher_pre M wf ip_ok m -> wf c ->
+  rewrite_region M true n fuel cf m pick c = Some (s, ret) ->
   forall o c', In (o, c') (ws_inv s) -> In o (alive M c').
 Proof. exact no_stale. Qed.
 Print Assumptions C11_no_stale.
@@ -78,45 +80,43 @@ Print Assumptions C11_no_stale.
 
 (* When rewrite_region returns with apply_recursively, every operation of the region is quiescent:
    a match on it leaves the IR unchanged and has_done_action unset (whatever the worklist holds) --
-   for every pop policy, for patterns that do not call create_block. *)
-Theorem C11_fixpoint_partial : forall (M : Sem), FlagLaws M -> forall n fuel cf m pick c s ret,
-  matcher_nocb M m -> apply_recursively cf = true ->
-  rewrite_region M n fuel cf m pick c = Some (s, ret) ->
+   for every pattern set, pop policy and walk configuration. *)
+Theorem C11_fixpoint : forall (M : Sem), FlagLaws M -> forall n fuel cf m pick c s ret,
+  apply_recursively cf = true ->
+  rewrite_region M true n fuel cf m pick c = Some (s, ret) ->
   forall o, In o (walk M (negb (walk_reverse cf)) (negb (walk_regions_first cf)) (ws_c s)) ->
             quiescent M true m (ws_c s) o.
 Proof. exact fixpoint. Qed.
-Print Assumptions C11_fixpoint_partial.
+Print Assumptions C11_fixpoint.
 
-Theorem C11_fixpoint_partial_model : forall n fuel cf m pick c s ret,
-  matcher_nocb cir_sem m -> apply_recursively cf = true ->
-  rewrite_region cir_sem n fuel cf m pick c = Some (s, ret) ->
+Theorem C11_fixpoint_model : forall n fuel cf m pick c s ret,
+  apply_recursively cf = true ->
+  rewrite_region cir_sem true n fuel cf m pick c = Some (s, ret) ->
   forall o, In o (walk cir_sem (negb (walk_reverse cf)) (negb (walk_regions_first cf)) (ws_c s)) ->
             quiescent cir_sem true m (ws_c s) o.
 Proof. exact (fixpoint cir_sem cir_flag_laws). Qed.
-Print Assumptions C11_fixpoint_partial_model.
+Print Assumptions C11_fixpoint_model.
 
-(* With create_block the walk returns False although the IR changed, and leaves an operation on
-   which the pattern would still act. *)
-Theorem C11_fixpoint_and_return_refuted :
+(* recorded refutation of the pre-fix code: with create_block the walk returned False although the IR
+   changed, and left an operation on which the pattern would still act *)
+Theorem C11_fixpoint_and_return_old_refuted :
   let c := build w_ir in
   let m := MSingle cir_sem (script w_tb_cb) in
-  exists s, rewrite_region cir_sem 5 50 w_cf m lifo c = Some (s, false) /\
+  exists s, rewrite_region cir_sem false 5 50 w_cf m lifo c = Some (s, false) /\
             dump (ws_c s) <> dump c /\
             In 1 (walk cir_sem true true (ws_c s)) /\
-            ~ quiescent cir_sem true m (ws_c s) 1.
-Proof. exact walk_create_block_refuted. Qed.
-Print Assumptions C11_fixpoint_and_return_refuted.
+            ~ quiescent_old true m (ws_c s) 1.
+Proof. exact walk_create_block_old_refuted. Qed.
+Print Assumptions C11_fixpoint_and_return_old_refuted.
 
-(* The listener callbacks alone do not re-enqueue enough: one populate + _process_worklist pass of
-   a create_block-free pattern can end with an operation that is not quiescent (they re-enqueue
-   inserted ops, modified ops, users of replaced results and single-use operand definers of erased
-   ops -- not the ops whose match depends on a changed neighbour).  The fixpoint is due to the outer
-   `while op_was_modified` loop. *)
+(* The listener callbacks alone do not re-enqueue enough: one populate + _process_worklist pass can
+   end with an operation that is not quiescent (they re-enqueue inserted ops, modified ops, users of
+   replaced results and single-use operand definers of erased ops -- not the ops whose match depends
+   on a changed neighbour).  The fixpoint is due to the outer `while op_was_modified` loop. *)
 Theorem C11_single_pass_refuted :
   let c := build w_ir2 in
   let m := MSingle cir_sem (script w_tb2) in
-  matcher_nocb cir_sem m /\
-  exists s, one_pass cir_sem 50 w_cf m lifo (st0 c) = Some s /\
+  exists s, one_pass cir_sem true 50 w_cf m lifo (st0 c) = Some s /\
             map fst (ws_inv s) = [1; 2; 2] /\
             In 1 (walk cir_sem true true (ws_c s)) /\
             ~ quiescent cir_sem true m (ws_c s) 1.
@@ -125,19 +125,17 @@ Print Assumptions C11_single_pass_refuted.
 
 (* ---- returned bool ---- *)
 
-(* rewrite_region returns True whenever the IR changed (create_block-free patterns). *)
-Theorem C11_returns_true_if_changed_partial : forall (M : Sem), FlagLaws M ->
+(* rewrite_region returns True whenever the IR changed. *)
+Theorem C11_returns_true_if_changed : forall (M : Sem), FlagLaws M ->
   forall n fuel cf m pick c s ret,
-  matcher_nocb M m ->
-  rewrite_region M n fuel cf m pick c = Some (s, ret) -> ws_c s <> c -> ret = true.
+  rewrite_region M true n fuel cf m pick c = Some (s, ret) -> ws_c s <> c -> ret = true.
 Proof. exact returns_true_if_changed. Qed.
-Print Assumptions C11_returns_true_if_changed_partial.
+Print Assumptions C11_returns_true_if_changed.
 
-Theorem C11_returns_true_if_changed_partial_model : forall n fuel cf m pick c s ret,
-  matcher_nocb cir_sem m ->
-  rewrite_region cir_sem n fuel cf m pick c = Some (s, ret) -> ws_c s <> c -> ret = true.
+Theorem C11_returns_true_if_changed_model : forall n fuel cf m pick c s ret,
+  rewrite_region cir_sem true n fuel cf m pick c = Some (s, ret) -> ws_c s <> c -> ret = true.
 Proof. exact (returns_true_if_changed cir_sem cir_flag_laws). Qed.
-Print Assumptions C11_returns_true_if_changed_partial_model.
+Print Assumptions C11_returns_true_if_changed_model.
 
 (* ---- links and non-vacuity ---- *)
 
@@ -151,20 +149,28 @@ Proof. exact worklist_is_c12_set_stack. Qed.
 Print Assumptions C11_worklist_is_C12_set_stack.
 
 (* the hypotheses are satisfiable: the laws hold for the heap model (FlagLaws) / for a minimal IR
-   model (LiveLaws, EvLaws); a create_block-free scripted pattern exists (C11_single_pass_refuted) *)
+   model (LiveLaws, EvLaws) *)
 Theorem C11_flag_laws_hold_for_the_model : FlagLaws cir_sem.
 Proof. exact cir_flag_laws. Qed.
 Print Assumptions C11_flag_laws_hold_for_the_model.
 
 Theorem C11_laws_satisfiable :
-  FlagLaws toy_sem /\ LiveLaws toy_sem (fun _ => True) /\ EvLaws toy_sem.
+  FlagLaws toy_sem /\ LiveLaws toy_sem (fun _ => True) (fun _ _ => True) /\ EvLaws toy_sem.
 Proof. exact (conj toy_flag_laws (conj toy_live_laws toy_ev_laws)). Qed.
 Print Assumptions C11_laws_satisfiable.
 
 (* the complete driver does reach the fixpoint on the single-pass counterexample: passes
    1,2,2 | 1,1,2 | 1,2 *)
 Example C11_nonvacuous :
-  exists s, rewrite_region cir_sem 5 50 w_cf (MSingle cir_sem (script w_tb2)) lifo (build w_ir2) = Some (s, true) /\
+  exists s, rewrite_region cir_sem true 5 50 w_cf (MSingle cir_sem (script w_tb2)) lifo (build w_ir2) = Some (s, true) /\
             map fst (ws_inv s) = [1; 2; 2; 1; 1; 2; 1; 2].
 Proof. exact single_pass_example_full_run. Qed.
 Print Assumptions C11_nonvacuous.
+
+(* the create_block walk that the pre-fix code got wrong, under the current code: visits
+   1, 2 | 1, 1, 2 | 1, 2 and returns True *)
+Example C11_create_block_walk_now :
+  exists s, rewrite_region cir_sem true 5 50 w_cf (MSingle cir_sem (script w_tb_cb)) lifo (build w_ir) = Some (s, true) /\
+            map fst (ws_inv s) = [1; 2; 1; 1; 2; 1; 2].
+Proof. exact walk_create_block_now. Qed.
+Print Assumptions C11_create_block_walk_now.
